@@ -488,6 +488,7 @@ impl World {
         let mut orc: Vec<String> = vec![];
         let mut obsx: Vec<String> = vec![]; // ret=, retd=
         let mut hints: Vec<String> = vec![];
+        let mut extend_overwrites = false;
         let mut head = fmt_op(mid, op);
         let mut panic_kind: Option<String> = None;
         let mut dh = 0u64;
@@ -1217,6 +1218,8 @@ impl World {
                 let desc: Vec<String> = pairs.iter().map(|(k, v)| format!("{}:{}:{}:{}", k.k(), k.id, v.v, v.id)).collect();
                 head = format!("extend {mid} {}", if desc.is_empty() { "-".into() } else { desc.join(",") });
                 let ids: Vec<(u64, u64, u64, u64)> = pairs.iter().map(|(k, v)| (k.k(), k.id, v.v, v.id)).collect();
+                // does a pair overwrite a key that is already there?  (see the transcript rule for `extend` below)
+                extend_overwrites = ids.iter().any(|x| self.refs[mid].as_ref().unwrap().contains_key(&x.0));
                 let m = self.maps[mid].as_mut().unwrap();
                 let cr = windowed(|| m.extend(pairs));
                 let r = self.refs[mid].as_mut().unwrap();
@@ -1450,6 +1453,11 @@ impl World {
         let post = self.maps[mid].as_ref().map(observe);
         let mut line = head.clone();
         line.push_str(" |");
+        if let (Op::Extend { .. }, Some(m)) = (op, self.maps[mid].as_ref()) {
+            // what is still parked after the call, in cursor order: the model rebuilds from it the order in which a
+            // growth inside `extend` parked the table
+            orc.push(format!("oldorder={}", keys_fmt(&old_keys(m))));
+        }
         // split detection: an old table exists now that was not there / a different one
         if let (Some(po), Some(m)) = (&post, self.maps[mid].as_ref()) {
             // a growth happened iff this (inserting / reserving) call allocated a table while the map
@@ -1510,9 +1518,15 @@ impl World {
         }
 
         if matches!(op, Op::Extend { .. }) && panic_kind.is_none() && !self.quiet_transcript {
-            // `extend` is not replayed step by step by the model: re-synchronise it from the hook
+            // `extend` is replayed by the model (`Map.extend`) and compared; the order of the elements carried by a
+            // growth inside it is not observable afterwards, so the model then adopts the state from the hook
             let l = self.sync_line(mid);
-            self.transcript.pop();
+            if da >= 1 && extend_overwrites {
+                // a growth INSIDE the call parked the table in an order that can no longer be observed, and whether a
+                // later pair found its (already present) key still parked — and so carried — depends on that order:
+                // this one is adopted, not compared
+                self.transcript.pop();
+            }
             self.transcript.push(l);
         }
 
@@ -1635,6 +1649,10 @@ impl World {
                 }
             }
             // C03: progress of a started resize
+            if matches!(op, Op::Extend { .. }) && da >= 1 {
+                // a growth inside `extend` started another resize at a point that is not observed: not tracked
+                self.split_track[mid] = None;
+            }
             if let Some((l, n)) = self.split_track[mid] {
                 if po.old.is_none() {
                     self.split_track[mid] = None;
